@@ -90,14 +90,17 @@ def ivsNoOverlap : List (Iv α) → Bool
   | a :: b :: rest => !decide (b.s < a.e) && ivsNoOverlap (b :: rest)
 
 /-- `IntervalTier(name, entries, minT, maxT)`:
-`_homogenizeEntries` (strip labels, sort), `_calculateMinAndMaxTime` (hull), `_validate`. -/
+`_homogenizeEntries` (strip labels, sort), `_calculateMinAndMaxTime` (hull; since fix 9432f3b in /repo bounds that come
+out in the wrong order — `resolvedMinT > resolvedMaxT`, only possible for a tier without entries — are swapped, as
+`PointTier` has always taken the hull of both bounds), `_validate`. -/
 def mkITier (name : String) (es : List (Iv α)) (minT maxT : Option α) : Except Err (ITier α) :=
   let es1 := sortIvs (es.map fun iv => { iv with l := pyStrip iv.l })
   let mins := es1.map (·.s) ++ minT.toList
   let maxs := es1.map (·.e) ++ maxT.toList
   match pyMinList mins, pyMaxList maxs with
   | some lo, some hi =>
-    if ivsAllPos es1 && ivsNoOverlap es1 then .ok ⟨name, es1, lo, hi⟩
+    -- `if resolvedMinT > resolvedMaxT: resolvedMinT, resolvedMaxT = resolvedMaxT, resolvedMinT`
+    if ivsAllPos es1 && ivsNoOverlap es1 then .ok ⟨name, es1, if hi < lo then hi else lo, if hi < lo then lo else hi⟩
     else .error .TextgridStateError
   | _, _ => .error .Timeless
 
